@@ -80,29 +80,17 @@ Qed.
 (* On a case where no two relay goroutines act at one instant, [agree] holds exactly when what the
    implementation was seen to do -- every request of Prepare, its result, every request of Propose,
    every relay call with its time and content, the submission and the return time -- is what the
-   model does on the case's input; with one latitude: when relays were asked and nothing is
-   submitted, the observed return time may be anything up to the model's (the deadline). *)
+   model does on the case's input. *)
 Lemma agree_sound : forall c,
   tie_free (e_deadline (c_env c)) (case_plans c) = true ->
   (agree c = true <->
-   exists t,
-     run (c_cfg c) (c_env c) (c_duty c) (c_prepare c) = ((c_prep_events c, c_prep_ok c), with_ret (c_obs c) t)
-     /\ o_ret (c_obs c) <= t
-     /\ (ret_free (with_ret (c_obs c) t) = false -> t = o_ret (c_obs c))).
+   run (c_cfg c) (c_env c) (c_duty c) (c_prepare c) = ((c_prep_events c, c_prep_ok c), c_obs c)).
 Proof.
   intros c Htie. unfold agree. destruct (run (c_cfg c) (c_env c) (c_duty c) (c_prepare c)) as [[pevs pok] res].
-  rewrite Htie. cbn [negb orb]. unfold result_agrees.
-  rewrite !andb_true_iff, events_eqb_spec, bool_eqb_spec, result_eqb_spec, N.leb_le.
+  rewrite Htie. cbn [negb orb]. rewrite !andb_true_iff, events_eqb_spec, bool_eqb_spec, result_eqb_spec.
   split.
-  - intros ((-> & ->) & (Hres & Hle)).
-    exists (if ret_free res then o_ret res else o_ret (c_obs c)). rewrite <- Hres. split; [reflexivity|].
-    split.
-    + destruct (ret_free res); lia.
-    + intros Hf. rewrite Hf. reflexivity.
-  - intros (t & H & Hle & Hfree). injection H as -> -> ->. split; [auto|].
-    destruct (ret_free (with_ret (c_obs c) t)) eqn:Hf; cbn [o_ret with_ret].
-    + split; [reflexivity|exact Hle].
-    + rewrite (Hfree eq_refl). split; [reflexivity|lia].
+  - intros ((-> & ->) & ->); reflexivity.
+  - intro H; injection H as -> -> ->; auto.
 Qed.
 
 (* ------------------------------------------------------------------------------------------- *)
